@@ -22,7 +22,7 @@ ID = 'C15'
 
 MANIFEST = dict(
     technique='explicit-state enumeration of all part lists (input tree), all window splittings, and all short line lists through the real process_lines(model_type=transformer) with a stub run_ocr; real merge vs a reference model with provenance-tagged logits',
-    text='Bounded exhaustive: every list of 1-3 parts of length 0-3 over {a,b}, every pair of parts up to length 4 over {a,b,c}, and every window splitting (all widths/overlaps, clean or with one noisy character in an overlap) of every text over {a,b} of length 5-7 (quick) / 5-9 (thorough); text and provenance-tagged logits of the real merge must equal the reference model, and the statement-level facts (length = sum of parts minus overlaps, one logit row per character, first/last part kept, zero overlap = concatenation) are checked separately; every list of 1-2 (quick) / 1-3 (thorough) painted lines over a 9-text alphabet goes through the real window splitting, span bookkeeping and merge of process_lines, and each line must equal the reference merge of its own windows. Added sub-sweeps: the real engine end to end on painted lines, a subsequence clause for noise-free windows, every reading of a text of up to 6 (quick) / 8 (thorough) characters as two true windows (unique exact overlap => the merged text is the text), and parts of 260 characters.',
+    text='Bounded exhaustive: every list of 1-3 parts of length 0-3 over {a,b}, every pair of parts up to length 4 over {a,b,c}, and every window splitting (all widths/overlaps, clean or with one noisy character in an overlap) of every text over {a,b} of length 5-7 (quick) / 5-9 (thorough); text and provenance-tagged logits of the real merge must equal the reference model, and the statement-level facts (length = sum of parts minus overlaps, one logit row per character, first/last part kept, zero overlap = concatenation) are checked separately; every list of 1-2 (quick) / 1-3 (thorough) painted lines over a 9-text alphabet goes through the real window splitting, span bookkeeping and merge of process_lines, and each line must equal the reference merge of its own windows. Added sub-sweeps: the real engine end to end on painted lines, a subsequence clause for noise-free windows, every reading of a text of up to 6 (quick) / 8 (thorough) characters as two true windows (unique exact overlap => the merged text is the text), and parts of 260 characters. A fourth two-window alphabet: letter, combining accent and precomposed letter.',
     note='The overlap detector (find_best_overlap) is taken from the implementation and only sanity-checked (range, CER<1); alphabet and lengths are bounded.',
     ref='3/C15')
 
